@@ -132,7 +132,9 @@ type Exec struct {
 	harness        *Harness
 	loopBound      int
 	allocLimit     int
-	allocTotal     int // bytes allocated by make since AllocLimit was set
+	allocTotal     int   // bytes allocated by make since AllocLimit was set
+	workLimit      int64 // instructions allowed after WorkLimit was set (0: none)
+	workBase       int64
 	monitorShared  bool
 	inInit         bool
 	concreteInputs bool
